@@ -349,8 +349,9 @@ class C06(object):
                 except Exception as e:
                     if runner.is_harness_exception(e):
                         raise
-                    return {"class": "raises", "key": "indexer.assigntorings:raises",
-                            "detail": "indexer.assigntorings raised %s: %s" % (type(e).__name__, e)}, 0
+                    # ring assignment is not this property's business (it fails, e.g., for a peak list that holds only the
+                    # origin: no ring below d* = 0): carry on with the plain indexer
+                    ix = self.indexing.indexer(gv=gv, hkl_tol=desc["tol"])
         gb = np.random.default_rng(gs["bseed"])
         if gs["buffers"] == "none":
             b1 = b2 = None
